@@ -21,6 +21,7 @@ def run(prog, rep, tier):
         raise Broken("S1 saw %d construction sites, below the floor 25" % r[2])
     apply(rep, "S2", "readers clone bound values", r_scope.s2(prog), 3)
     apply(rep, "S3", "rebind / unbound name are compile-time throws", r_scope.s3(prog), 2)
+    apply(rep, "S5", "inherited up-references start unused in the nested block", r_scope.s5(prog), 1)
     apply(rep, "S4", "inner binders shadow outer ones (lookup and up-reference table order)", r_scope.s4(prog), 2)
     q = r_pure.q1(prog)
     apply(rep, "Q1", "no parameter-dependent function-local static", ([i for i in q[0] if i[0].startswith("Q1iii")],
